@@ -5,6 +5,7 @@
 import CnvVerif.Generated.ExprsAccess
 import CnvVerif.Model.Access
 import CnvVerif.Lemmas.Access
+set_option linter.unusedSimpArgs false
 namespace CnvVerif.Src
 open CnvVerif CnvVerif.Generated
 
@@ -48,41 +49,6 @@ theorem anyTrue_false {α : Type} (l : List α) (f : α → Bool) (h : Py.anyTru
     exact ⟨a, ha, by simpa using hf⟩
   rw [h] at this
   exact Bool.noConfusion this
-
-
-/-! ### `join_regions` -/
-
-/-- a yielded triple of `join_regions` -/
-def triple (r : Row) : String × Int × Int := (r.chrom, r.s, r.e)
-
-theorem joinGo_is_source (g : Int) (prev : Row) (l : List Row) (hc : ∀ r ∈ l, r.chrom = prev.chrom) :
-    (joinGo g prev l).map triple =
-      Py.genLoop (fun st x => src_join_regions_step g prev.chrom st.1 st.2 x.1 x.2)
-        (fun st => src_join_regions_final g prev.chrom st.1 st.2) (prev.s, prev.e)
-        (l.map (fun r => (r.s, r.e))) := by
-  induction l generalizing prev with
-  | nil => simp [joinGo, Py.genLoop, src_join_regions_final, triple]
-  | cons x xs ih =>
-    have hx : x.chrom = prev.chrom := hc x (by simp)
-    have hxs : ∀ r ∈ xs, r.chrom = prev.chrom := fun r hr => hc r (by simp [hr])
-    simp only [joinGo, List.map_cons, Py.genLoop, src_join_regions_step]
-    by_cases hgap : x.s - prev.e < g
-    · simp only [hgap, if_true, List.nil_append]
-      exact ih { prev with e := x.e } hxs
-    · simp only [hgap, if_false, List.map_cons, List.cons_append, List.nil_append]
-      have := ih x (fun r hr => by rw [hxs r hr, hx])
-      rw [hx] at this
-      rw [this]
-      rfl
-
-theorem min_gap_is_source (m : Option Int) : m.getD 0 = src_join_regions_min_gap m := by
-  unfold src_join_regions_min_gap Py.orInt
-  cases m with
-  | none => rfl
-  | some v =>
-    by_cases h : v = 0
-    · simp [h]
-    · simp [h]
 
 
 /-! ### `get_regions` -/
